@@ -143,6 +143,25 @@ class JumpToStageHandler(StabilizeHandler[JumpToStage]):
             # (retrieve_stage only returns partial execution with one stage)
             execution = self.repository.retrieve(message.execution_id)
 
+            # A cancel accepted before this jump was handled wins: re-arming
+            # stages of a canceled execution would un-cancel finished work and
+            # leave re-armed stages NOT_STARTED in a CANCELED workflow. The
+            # source stage is settled by the cancel's own CancelStage.
+            if execution.is_canceled:
+                logger.info(
+                    "Ignoring JumpToStage to %s - execution %s is canceled",
+                    message.target_stage_ref_id,
+                    message.execution_id,
+                )
+                if message.message_id:
+                    with self.repository.transaction(self.queue) as txn:
+                        txn.mark_message_processed(
+                            message_id=message.message_id,
+                            handler_type="JumpToStage",
+                            execution_id=message.execution_id,
+                        )
+                return
+
             # Get source stage from full execution for consistency
             source_stage = next(
                 (s for s in execution.stages if s.id == message.stage_id),
